@@ -15,8 +15,8 @@ import numpy as np
 ID = "C13"
 LEVEL = "exploration"
 RULE = (
-    "G cases (all families except concatenating id) with a non-empty subset of argument positions replaced by instrumented factories of 6 signature classes (positional, optional "
-    "keywords, **kwargs, callable object, functools.partial, builtin without signature); call sequences cold -> warm -> other factory object of the same signature -> cold after "
+    "G cases (all families except concatenating id) with a non-empty subset of argument positions replaced by instrumented factories of 8 signature classes (positional, optional "
+    "keywords, **kwargs, callable object, functools.partial, keyword-only, callable object with a `shape` attribute, functools.wraps-decorated); call sequences cold -> warm -> other factory object of the same signature -> cold after "
     "cache_clear -> graph=True -> under-constrained variant -> misbehaving factory (wrong type / rank / shape / broadcast-compatible shape / numpy or Python scalar at a 0-d position); distinct by (op, skeleton, positions, "
     "signature classes); non-trivial if >= 1 factory was invoked"
 )
@@ -33,8 +33,8 @@ class Log:
     def __init__(self):
         self.entries = []
 
-    def add(self, pos, shape, kwargs):
-        f = sys._getframe(2)
+    def add(self, pos, shape, kwargs, up=2):
+        f = sys._getframe(up)
         caller = (f.f_code.co_filename, f.f_code.co_name)
         tracing = False
         g = f
@@ -82,10 +82,30 @@ def make_factory(kind, pos, data, log):
             log.add(pos, shape, {k: v for k, v in (("arg_index", arg_index),) if v is not None})
             return data
         return f, {"arg_index"}
+    if kind == "object-with-shape":
+        # a callable object that happens to carry a `shape` attribute (say, a lazily initialised parameter): a factory contributes no size
+        # constraints, whatever attributes it has
+        class P:
+            shape = (7, 11, 13)
+
+            def __call__(self, shape, name=None):
+                log.add(pos, shape, {k: v for k, v in (("name", name),) if v is not None})
+                return data
+        return P(), {"name"}
+    if kind == "wrapped":
+        # a decorated factory: functools.wraps advertises the signature of the wrapped function, which declares `name` only
+        def inner(shape, name=None):
+            log.add(pos, shape, {k: v for k, v in (("name", name),) if v is not None}, up=3)  # (the caller of the wrapper)
+            return data
+
+        @functools.wraps(inner)
+        def wrapper(*args, **kwargs):
+            return inner(*args, **kwargs)
+        return wrapper, {"name"}
     raise KeyError(kind)
 
 
-KINDS = ["positional", "optional", "varkw", "object", "partial", "kwonly"]
+KINDS = ["positional", "optional", "varkw", "object", "partial", "kwonly", "object-with-shape", "wrapped"]
 
 
 def run(spec, out):
